@@ -103,6 +103,11 @@ class CaseGen:
             fam = rng.choice(["ring", "diamond"])
             sd = scen.random_sd(rng, family=fam)
             return fam, sd, scen.sd_to_scenario(sd)
+        if rng.random() < self.cfg.get("very_wide_frac", 0.03):
+            # an address space so large that one host vector has more than a thousand entries
+            sd = scen.random_sd(rng, max_subnets=3, max_size=2)
+            sd["bounds"] = (sd["bounds"][0] + rng.randint(0, 3), sd["bounds"][1] + rng.choice([1000, 1100]))
+            return "random-very-wide", sd, scen.sd_to_scenario(sd)
         if r < 0.72 or src == ("random",):
             sd = scen.random_sd(rng, small=self.cfg.get("small", False))
             if rng.random() < self.cfg.get("small_values_frac", 0.0):
